@@ -109,6 +109,14 @@ func ruleC03(w *World, r *Report) {
 		k.clientVerifyRule("C03.client", ct, "VerifyPacketAcknowledgement")
 	}
 	k.commitPathRule("C03.key.cover", "PacketAcknowledgementPath")
+	// the proof verifiers behind VerifyPacketAcknowledgement (shared with C01/C08)
+	k.merkleRule("C03.merkle")
+	for _, ct := range []string{pBSC, pETH} {
+		k.mptRule("C03.mpt", ct)
+	}
+	// "processed at most once" across an export/import: commitments, acks and send sequences
+	// are restored under the keys they were exported from (shared with C16)
+	k.genesisFieldRule("C03.genesis")
 	r.MinInstances("C03.", 50)
 }
 
